@@ -114,6 +114,24 @@ theorem toJsonNameAux_snoc_underscore (up : Bool) (w : List Char) :
 theorem json_name_suffix_invariant (w : List Char) : toJsonName (w ++ ['_']) = toJsonName w :=
   toJsonNameAux_snoc_underscore false w
 
+/-- REST, REQUIRED query fields: the transport's table of required fields is keyed by `camel_case(Field.name)`, the
+ATTRIBUTE name (already suffixed). For every reserved word without a capital letter that key IS the JSON name of
+the field (the suffix is dropped again), so an unset required field goes out under its original name and a set one
+is recognised as set: whole table, evaluated through the regex engine -/
+theorem required_key_is_json_name_table :
+    ∀ w ∈ Pinned.reservedNames, noUpper w = true → toCamelCase (fieldAttr w).toList = toJsonName w.toList := by decide
+
+example : "class" ∈ Pinned.reservedNames ∧ noUpper "class" = true := by decide
+
+/-- the same key for the three capitalised reserved words is lower-cased (`to_snake_case` lower-cases), the JSON
+name is not: the table key `none` never meets the JSON key `None` (findings/C12.json, rest-required-query-key-lowercased) -/
+theorem required_key_counterexample :
+    toCamelCase (fieldAttr "None").toList = "none".toList ∧ toJsonName "None".toList = "None".toList := by decide
+
+/-- multi-word ordinary names: the key is the lowerCamel JSON name -/
+theorem required_key_ordinary : toCamelCase "page_size".toList = toJsonName "page_size".toList ∧
+    toCamelCase "display_name".toList = "displayName".toList := by decide
+
 /-! ## RPC names -/
 
 /-- an RPC named like a keyword gets exactly one underscore at the client level; other names are kept -/
